@@ -42,8 +42,11 @@ def check(ctx):
     ctx.run_engine(seq, ['--outdir', '/verif/out', '--deadline', '20' if quick else '300'] + ([] if quick else ['--thorough']), label='ht_seq', timeout=900)
     exe = build_conc(ctx)
     if quick:
-        conc(ctx, exe, TWO, 2, 30, 'conc2_b2')
-        conc(ctx, exe, TWO_BIG + THREE, 1, 12, 'conc3_b1')
+        # one invocation per script (the engine's deadline is per invocation): every script completes bound 1 even on a loaded machine
+        for s in TWO:
+            conc(ctx, exe, [s], 2, 9, 'b2_' + s)
+        for s in TWO_BIG + THREE:
+            conc(ctx, exe, [s], 1, 7, 'b1_' + s)
     else:
         # one invocation per script so that every script gets its own share of the thorough budget (the engine's deadline is per invocation)
         for s in TWO + TWO_BIG:
